@@ -51,7 +51,9 @@ structure FrameOK (pre post : Text) (src dst : List Byte) : Prop where
   pre : noPartial t!"STATV" pre = true
   openSq : noPartial t!"STATV" (escBytes sq (packetOpen src dst)) = true
   openDq : noPartial t!"STATV" (escBytes dq (packetOpen src dst)) = true
-  post : noPartial t!"</DATAS>" post = true
+  noDatas : noPartial t!"</DATAS>" post = true
+  postOpen : endsClose post = false          -- the record does not end with `]` (it ends with the sender's address) ..
+  postText : post.all isSpace = false        -- .. and something visible follows the datagram
 
 theorem statv_search (pre post : Text) (src dst : List Byte) (sg : Seg) (hf : FrameOK pre post src dst) :
     searchRe reStatv (trafficLine pre post (packet src dst sg)) =
@@ -66,7 +68,7 @@ theorem statv_search (pre post : Text) (src dst : List Byte) (sg : Seg) (hf : Fr
     · exact hf.openSq
     · exact hf.openDq
   have hpre := hf.pre
-  have hpost := hf.post
+  have hpost := hf.noDatas
   unfold reStatv
   rw [search_skip _ _ _ _ hpre, search_skip_char _ _ _ _ _ (by decide)]
   have hqS : ('S' != q) = true := by rcases hq with rfl | rfl <;> decide
@@ -93,10 +95,18 @@ theorem snapshotAlt_segs (line : Text) (s : Snap) : (fire reSnapshotAlt line hSn
   · unfold hSnapshotAlt; split <;> rfl
   · rfl
 
+/-- the block expression cannot match a traffic record: its last visible character is not `]` -/
+theorem traffic_noBlock (pre post : Text) (pkt : List Byte) (h1 : endsClose post = false) (h2 : post.all isSpace = false) :
+    dataLine (trafficLine pre post pkt) = .noMatch := by
+  have : reData (trafficLine pre post pkt) = none := by
+    apply reData_none_of_open
+    unfold trafficLine
+    rw [endsClose_append, endsClose_append, h1, List.all_append, h2]; simp
+  unfold dataLine; rw [this]
+
 /-- **one record**: `parse` on a STATV record appends its data and, on the final segment, publishes the joined block -/
 theorem traffic_parse (s : Snap) (pre post : Text) (src dst : List Byte) (sg : Seg) (hf : FrameOK pre post src dst)
-    (hlen : sg.data.length < 256) (hqs : QuoteSafe (packet src dst sg))
-    (hd : dataLine (trafficLine pre post (packet src dst sg)) ≠ .raises) :
+    (hlen : sg.data.length < 256) :
     ∃ s', parseLine s (trafficLine pre post (packet src dst sg)) = .ok s' ∧ s'.segs = s.segs ++ [sg.data] ∧
       (sg.next = 0 → s'.bytes = (s.segs ++ [sg.data]).flatten) := by
   rw [parseLine_split]
@@ -104,38 +114,22 @@ theorem traffic_parse (s : Snap) (pre post : Text) (src dst : List Byte) (sg : S
   generalize fire reSnapshotAlt (trafficLine pre post (packet src dst sg)) hSnapshotAlt s = s1 at g1 ⊢
   have g2 := (keeps_mid (trafficLine pre post (packet src dst sg)) s1).2
   generalize midFires (trafficLine pre post (packet src dst sg)) s1 = s2 at g2 ⊢
-  have hdl : ∃ s3, hData (trafficLine pre post (packet src dst sg)) s2 = .ok s3 ∧ s3.segs = s2.segs := by
-    unfold hData
-    cases hdv : dataLine (trafficLine pre post (packet src dst sg)) with
-    | noMatch => exact ⟨s2, rfl, rfl⟩
-    | raises => exact absurd hdv hd
-    | bytes bs => exact ⟨{ s2 with bytes := bs }, rfl, rfl⟩
-  obtain ⟨s3, e3, g3⟩ := hdl
+  have e3 : hData (trafficLine pre post (packet src dst sg)) s2 = .ok s2 := by
+    unfold hData; rw [traffic_noBlock _ _ _ hf.postOpen hf.postText]
   rw [e3]
-  have g4 := (keeps_post (trafficLine pre post (packet src dst sg)) s3).2
-  generalize postFires (trafficLine pre post (packet src dst sg)) s3 = s4 at g4 ⊢
-  have hseg : s4.segs = s.segs := by rw [g4, g3, g2, g1]
   -- the segment handler
   have hq := quoteOf_cases (packet src dst sg)
   have hlit : litEval (fixQuotes (t!"STATV" ++ escBytes (quoteOf (packet src dst sg))
       (sg.idx :: sg.next :: UInt8.ofNat sg.data.length :: sg.data))) =
       .ok (statvBytes ++ sg.idx :: sg.next :: UInt8.ofNat sg.data.length :: sg.data) := by
     rw [← esc_statv _ hq, ← escBytes_append]
-    have hall : (statvBytes ++ sg.idx :: sg.next :: UInt8.ofNat sg.data.length :: sg.data).all
-        (okByte (quoteOf (packet src dst sg))) = true := by
-      rw [List.all_eq_true]
-      intro b hb
-      apply okByte_of_quoteSafe _ hqs
-      rw [List.mem_append] at hb
-      simp only [packet, statvContent, List.mem_append]
-      exact Or.inr (Or.inl hb)
-    have := litEval_escBytes _ hq _ hall []
+    have := litEval_escBytes _ hq (statvBytes ++ sg.idx :: sg.next :: UInt8.ofNat sg.data.length :: sg.data) []
     rw [List.append_nil] at this
     rw [this]
     simp [litEval, litRun, Except.map]
   simp only [hSegment, statv_search pre post src dst sg hf, hlit, statvDecode_content _ _ _ hlen]
   by_cases hn : sg.next = 0
-  · simp [hn, (keeps_post (trafficLine pre post (packet src dst sg)) s3).2, g3, g2, g1]
-  · simp [hn, (keeps_post (trafficLine pre post (packet src dst sg)) s3).2, g3, g2, g1]
+  · simp [hn, (keeps_post (trafficLine pre post (packet src dst sg)) s2).2, g2, g1]
+  · simp [hn, (keeps_post (trafficLine pre post (packet src dst sg)) s2).2, g2, g1]
 
 end GeckoModel.Snapshot
